@@ -556,7 +556,7 @@ func init() {
 		Rule: "E1 over every 2FA settings route (setup / confirm / remove / regen / e-mail verify start+end, TOTP and SMS) from fully authenticated, half-authenticated (incl. the first request that carries only the cookie), pending and anonymous sessions with code / token alphabets (valid for the secret being enrolled, for the current factor, another account's, recovery codes, empty, zeros; token mailed for this / the other session, previous, empty, garbage); oracle diffs all accounts' 2FA fields around every request; classes = change kinds and attempting session kinds",
 		Units: func(tier string) []engine.Unit {
 			scs := c13Scenarios(tier)
-			return e1Units(append(scs, configVariants(scs, tier, "faults:-confirm(|-remove(|-setup(|verify-end(|regen(")...))
+			return e1Units(append(scs, configVariants(scs, tier, "faults:-confirm(|-remove(|-setup(|verify-end(|regen(", "preload-user")...))
 		},
 		Need:        []string{"totp-enabled", "sms-enabled", "totp-disabled", "sms-disabled", "regenerated", "email-authorised", "attempt:full", "attempt:half-authed", "attempt:pending", "attempt:anonymous", "attempt:cookie-only"},
 		Assumptions: []string{"for SMS removal 'a current code' is a code the library sent to the registered number in this session", "bounded depth, 2 accounts, 2 browsers"},
